@@ -35,6 +35,8 @@ var names = []string{"A", "B", "R", "X"}
 type exec struct {
 	net  *relaynet.Net
 	seen bool // the datagram handed to the relay contained the end-to-end plaintext
+	// stage0 is X's stage-0 handshake packet for A exactly as X handed it to the relay during setup
+	stage0 []byte
 }
 
 func (e *exec) nameOfHost(n *relaynet.Node, h nebula.VerifHostInfo) string {
@@ -77,12 +79,27 @@ func set(xs []string) string {
 
 // observe injects at node rx and reports the differences.
 func (e *exec) observe(rx int, from netip.AddrPort, pkt []byte) string {
+	return e.observeAct(rx, func(n *relaynet.Node) { n.Inject(from, append([]byte{}, pkt...)) })
+}
+
+// xRemote reports whether A's hostinfo for X (a relay-only tunnel) has a direct underlay remote.
+func (e *exec) xRemote() bool {
+	for _, h := range e.net.Nodes[nA].State().Hosts {
+		if len(h.VpnAddrs) > 0 && h.VpnAddrs[0] == e.net.Nodes[nX].Vpn && h.Remote.IsValid() {
+			return true
+		}
+	}
+	return false
+}
+
+// observeAct runs act on node rx and reports the differences of its digest.
+func (e *exec) observeAct(rx int, act func(n *relaynet.Node)) string {
 	n := e.net.Nodes[rx]
 	n.ClearIn()
 	n.Dev.Out = nil
 	e.net.Take()
 	before := e.digest(n)
-	n.Inject(from, append([]byte{}, pkt...))
+	act(n)
 	after := e.digest(n)
 	var out, del, roam, in, win, rs []string
 	for _, w := range e.net.Take() {
@@ -291,10 +308,23 @@ func newExec(t *testing.T) func([]string) string {
 			X.StartHandshake(A.Vpn)
 			net.Pump(64)
 			X.HandshakeOutbound(A.Vpn)
+			e.stage0 = nil
+			for _, w := range net.Queue {
+				var h header.H
+				if w.From == X.Udp && w.To == R.Udp && len(w.Data) > 48 && h.Parse(w.Data) == nil &&
+					h.Type == header.Message && h.Subtype == header.MessageRelay {
+					in := w.Data[16 : len(w.Data)-16]
+					var ih header.H
+					if ih.Parse(in) == nil && ih.Type == header.Handshake && ih.MessageCounter == 1 {
+						e.stage0 = append([]byte{}, in...)
+					}
+				}
+			}
 			net.Pump(64)
 			net.Take()
-			ok := A.PrimaryIndex(X.Vpn) != 0 && X.PrimaryIndex(A.Vpn) != 0
-			return "ok " + hlib.B(ok)
+			ok := A.PrimaryIndex(X.Vpn) != 0 && X.PrimaryIndex(A.Vpn) != 0 && len(e.stage0) > 0
+			// handshake completion through a relay must leave the endpoint's hostinfo without a direct remote
+			return "ok " + hlib.B(ok) + " xr=" + hlib.B(e.xRemote())
 		case "pkt":
 			// pkt <kind> <src> <scope> <mut...>     scope: out | lie (relay re-seals a rewritten inner packet)
 			if e.net == nil {
@@ -340,14 +370,55 @@ func newExec(t *testing.T) func([]string) string {
 			if mut[0] == "replay" {
 				e.observe(rx, from, pkt)
 			}
-			return e.observe(rx, from, pkt) + " seen=" + hlib.B(seen)
+			return e.observe(rx, from, pkt) + " seen=" + hlib.B(seen) + " xr=" + hlib.B(e.xRemote())
 		case "recverr":
 			// recverr <idxsym> <src>: a forged, unencrypted recv_error datagram for A
 			if e.net == nil {
 				return "bad-op"
 			}
 			b := header.Encode(make([]byte, header.Len), header.Version, header.RecvError, 0, e.symIdx(a[1]), 0)
-			return e.observe(nA, e.src(a[2], nB), b) + " seen=0"
+			return e.observe(nA, e.src(a[2], nB), b) + " seen=0 xr=" + hlib.B(e.xRemote())
+		case "hsdup":
+			// hsdup <src> <mode>: after the relayed tunnel X-A completed, the relay R hands A the stage-0
+			// handshake packet of X once more, re-wrapped in a fresh relay frame (what a retransmit over a
+			// slow relay leg, or a relay replaying what it carried, looks like). mode: relay (byte-identical
+			// packet) | flip (one bit of it flipped)
+			if e.net == nil || len(e.stage0) == 0 {
+				return "bad-op"
+			}
+			R, A, X := e.net.Nodes[nR], e.net.Nodes[nA], e.net.Nodes[nX]
+			inner := append([]byte{}, e.stage0...)
+			if a[2] == "flip" {
+				inner[len(inner)/2] ^= 0x10
+			}
+			var ridx uint32
+			for _, hi := range R.State().Hosts {
+				if len(hi.VpnAddrs) > 0 && hi.VpnAddrs[0] == A.Vpn {
+					for _, r := range hi.RelayFor {
+						if r.PeerAddr == X.Vpn {
+							ridx = r.LocalIndex
+						}
+					}
+				}
+			}
+			e.net.Take()
+			if ridx == 0 || !R.SendViaIndex(ridx, inner) {
+				return "no-packet"
+			}
+			q := e.net.Take()
+			if len(q) == 0 {
+				return "no-packet"
+			}
+			return e.observe(nA, e.src(a[1], nR), q[len(q)-1].Data) + " seen=0 xr=" + hlib.B(e.xRemote())
+		case "reply":
+			// reply: A's tun hands nebula a packet for X; it must leave as a Message/Relay frame to the relay
+			if e.net == nil {
+				return "bad-op"
+			}
+			A, X := e.net.Nodes[nA], e.net.Nodes[nX]
+			return e.observeAct(nA, func(n *relaynet.Node) {
+				n.SendTun(relaynet.IPv4Packet(A.Vpn, X.Vpn, 2000, 1000, []byte("pong")))
+			}) + " seen=0 xr=" + hlib.B(e.xRemote())
 		}
 		return "bad-op"
 	}
@@ -397,6 +468,18 @@ func gen(r *hlib.Rand, n int, tier, profile string, emit func(string, ...any)) {
 				kind = hlib.Pick(r, "rmsg", "rmsg", "fwd")
 			}
 			src := hlib.Pick(r, "own", "own", "own", "other", "mynet")
+			// relay-only tunnel X-A: retransmitted / replayed stage-0 handshakes re-wrapped by the relay,
+			// and A's own traffic for X, which must stay inside the relay tunnel
+			if y := r.Intn(100); y < 8 || (profile == "C15" && y < 22) {
+				switch r.Intn(5) {
+				case 0, 1:
+					emit("hsdup %s %s", hlib.Pick(r, "own", "own", "other", "mynet"), hlib.Pick(r, "relay", "relay", "relay", "flip"))
+				default:
+					emit("reply")
+				}
+				ops++
+				continue
+			}
 			switch x := r.Intn(100); {
 			case x < 30:
 				emit("pkt %s %s out none", kind, src)
